@@ -175,6 +175,20 @@ func (en *Engine) verifyFunc(fn *ssa.Function, ct *FuncContract, findings ...*Fi
 			vc.curBlk = r.block.Index
 		}
 		post := &SpecCtx{f: f, fn: fn, params: f.params, heap: r.heap, old: f.entry, binds: f.lets, result: &res, pkg: pkgOf(fn)}
+		if r.reach != "false" {
+			// vacuity guard: the facts collected along the way to this return must be satisfiable
+			// (a) the assumptions alone must be satisfiable; (b) the path itself: unreachable
+			// returns are tolerated (dead code under the preconditions) unless every return of the
+			// function is unreachable
+			if ri == len(f.rets)-1 {
+				sc := vc.oblige("smoke.ctx", "cover", "false", ct.Props, r.where, "the assumptions collected over the whole function are not contradictory")
+				sc.WantSat = true
+				sc.Blk = -1 // every line
+			}
+			sm := vc.oblige(fmt.Sprintf("smoke.path@return#%d", ri+1), "cover", not(r.reach), ct.Props, r.where, "some input reaches this return")
+			sm.WantSat = true
+			sm.Dead = true
+		}
 		var conds []string
 		if !r.dup {
 			conds = f.splitConds(r.block)
@@ -212,35 +226,44 @@ func (en *Engine) assumeGlobalAxioms(f *Frame, ctx *SpecCtx) {
 			c.pkg = sp.Pkg
 		}
 		t := c.evalBool(ax.E)
-		f.vc.axioms = append(f.vc.axioms, axiomText{ax.Name, t})
+		f.vc.axioms = append(f.vc.axioms, axiomText{name: ax.Name, text: t})
 	}
 }
 
-type axiomText struct{ name, text string }
+type axiomText struct {
+	name, text string
+	syms       []string
+}
 
 var sfSym = regexp.MustCompile(`sf_[^ ()]+`)
 
 // relevantAxioms selects contract-file axioms whose spec functions occur in the body.
 func (vc *VC) relevantAxioms(body string) string {
 	inc := map[int]bool{}
-	text := body
+	toks := symbolSet(body)
 	for changed := true; changed; {
 		changed = false
 		for i, ax := range vc.axioms {
 			if inc[i] {
 				continue
 			}
-			syms := sfSym.FindAllString(ax.text, -1)
+			if ax.syms == nil {
+				vc.axioms[i].syms = append([]string{}, sfSym.FindAllString(ax.text, -1)...)
+				ax = vc.axioms[i]
+			}
+			syms := ax.syms
 			rel := len(syms) == 0
 			for _, s := range syms {
-				if strings.Contains(text, s) {
+				if toks[s] {
 					rel = true
 					break
 				}
 			}
 			if rel {
 				inc[i] = true
-				text += ax.text
+				for _, s := range syms {
+					toks[s] = true
+				}
 				changed = true
 			}
 		}
@@ -301,6 +324,9 @@ func (en *Engine) assemble(vc *VC, o *Oblig, wantModel bool) string {
 	b.WriteString(axioms)
 	b.WriteString(strings.Join(rest, "\n") + "\n")
 	if o.WantSat {
+		if o.Goal != "false" {
+			b.WriteString("(assert (not " + o.Goal + "))\n")
+		}
 		b.WriteString("(check-sat)\n")
 	} else {
 		b.WriteString("(assert (not " + o.Goal + "))\n(check-sat)\n")
